@@ -561,7 +561,9 @@ def _guard(f):
         return _Raised(e)
 
 
-def _cmp(ctx, key, what, impl, out, exact, info, atol=1e-9):
+def _cmp(ctx, key, what, impl, out, exact, info, atol=1e-9, decided=None):
+    """`decided`: boolean mask over the 3-vector rows; rows whose nearest periodic image is a tie (within 1e-7
+    relative, by the exhaustive oracle) are not compared: float rounding and exact arithmetic may break it differently."""
     if isinstance(impl, _Raised):
         if not out.startswith('err:'):
             ctx.disagree(key + ':raises', f'{what}: implementation raised {impl.text}, the model returns values', info)
@@ -570,6 +572,17 @@ def _cmp(ctx, key, what, impl, out, exact, info, atol=1e-9):
         ctx.disagree(key + ':driver-error', f'{what}: model refused ({out})', info)
         return False
     model = _floats(out)
+    if decided is not None:
+        np = _np()
+        impl = np.asarray(impl, dtype=float)
+        decided = np.asarray(decided, dtype=bool)
+        if impl.ndim == 2 and impl.shape[1] == 3 and len(decided) == len(impl) and len(model) == 3 * len(impl):
+            keep = np.repeat(decided, 3)
+            model = [m for m, k in zip(model, keep) if k]
+            impl = impl[decided]
+        else:
+            ctx.disagree(key + ':shape', f'{what}: result shape {impl.shape} does not fit the {len(model) // 3} model rows', info)
+            return False
     d = _maxdiff(impl, model)
     lim = 0 if exact else atol
     if d > lim:
@@ -617,12 +630,30 @@ def _corr_slip_one(ctx, rng, ref, caseseed, it0, it, dyadic):
     sel = list(range(n)) if ctx.thorough else _select(rng, n, 20, across)
     pos = cm.frs(s0.atoms.pos) + ' ' + cm.frs(s1.atoms.pos)
     nlt = _nlist_tokens(nl0, n)
+    # nearest-image ties (exhaustive oracle): possible once the slip is not small
+    V_, pb_ = s0.box.vects, sc['pbc']
+    if sc['stable']:
+        dec_disp = dec_slip = None
+
+        def dec_rows(rows_, nl_=None):
+            return None
+    else:
+        dec_disp = _mi(V_, pb_, s1.atoms.pos - s0.atoms.pos, np)[2]
+        I_, J_, _, dec_dd = _expect_pairs(s0, s1, (V_, pb_), nl0, np)
+        dec_slip_all = np.ones(n, dtype=bool)
+        np.logical_and.at(dec_slip_all, I_, dec_dd)
+        dec_slip = dec_slip_all[sel]
+
+        def dec_rows(rows_, nl_=None):
+            dd_ = dec_dd if nl_ is None else _expect_pairs(s0, s1, (V_, pb_), nl_, np)[3]
+            return dd_[rows_]
     # displacement (system_1's cell; here it equals system_0's) ---------------------------
     ctx.stats.case('disp', canon, sample=info)
     out = ctx.driver.ask(f'disp {_cell(s1)} {n} {pos}')
-    _cmp(ctx, 'displacement', 'am.displacement (rigid slip)', am.displacement(s0, s1), out, exact, info)
+    _cmp(ctx, 'displacement', 'am.displacement (rigid slip)', _guard(lambda: am.displacement(s0, s1)), out, exact, info,
+         decided=dec_disp)
     _cmp(ctx, 'displacement:initial', "am.displacement(box_reference='initial')",
-         am.displacement(s0, s1, box_reference='initial'), out, exact, info)
+         _guard(lambda: am.displacement(s0, s1, box_reference='initial')), out, exact, info, decided=dec_disp)
     if it % 3 == 1:
         # the two systems with DIFFERENT periodicity flags: 'final' takes system_1's, 'initial' system_0's
         p2 = list(sc['pbc'])
@@ -631,24 +662,26 @@ def _corr_slip_one(ctx, rng, ref, caseseed, it0, it, dyadic):
         s1q = _system(s0, s1.atoms.pos, pbc=tuple(p2))
         o1 = ctx.driver.ask(f'disp {_cell(s1q)} {n} {pos}')
         ctx.stats.case('disp:pbc-differs', canon + (kf,))
+        dq = _mi(V_, p2, s1.atoms.pos - s0.atoms.pos, np)[2]
         _cmp(ctx, 'displacement:pbc', 'am.displacement (system_1 with other pbc flags, final)', am.displacement(s0, s1q), o1,
-             exact, dict(info, pbc1=p2))
+             exact, dict(info, pbc1=p2), decided=dq)
         _cmp(ctx, 'displacement:pbc', "am.displacement (system_1 with other pbc flags, box_reference='initial')",
-             am.displacement(s0, s1q, box_reference='initial'), out, exact, dict(info, pbc1=p2))
+             am.displacement(s0, s1q, box_reference='initial'), out, exact, dict(info, pbc1=p2),
+             decided=_mi(V_, pb_, s1.atoms.pos - s0.atoms.pos, np)[2])
         o2 = ctx.driver.ask(f'dd {_cell(s0)} {_cell(s1q)} {n} {pos} {nlt} {_sel_tokens(sel)}')
         offs_ = np.concatenate([[0], np.cumsum([len(nl0[i]) for i in range(n)])])
         rows_ = np.concatenate([np.arange(offs_[i], offs_[i + 1]) for i in sel]).astype(int)
         _cmp(ctx, 'ddvectors:pbc', 'DifferentialDisplacement (systems with different pbc flags).ddvectors',
              _guard(lambda: am.defect.DifferentialDisplacement(s0, s1q, neighbors=nl0, reference=0).ddvectors[rows_]), o2,
-             exact, dict(info, pbc1=p2))
+             exact, dict(info, pbc1=p2), decided=_expect_pairs(s0, s1q, (V_, tuple(p2)), nl0, np)[3][rows_])
     # slip vector: via neighbors= and via cutoff= (the list must be system_0's) -----------
     out = ctx.driver.ask(f'slip {_cell(s0)} {n} {pos} {nlt} {_sel_tokens(sel)}')
     ctx.stats.case('slip', canon, sample=info)
     _cmp(ctx, 'slip_vector', 'slip_vector(neighbors=)', _guard(lambda: am.defect.slip_vector(s0, s1, neighbors=nl0)[sel]),
-         out, exact, info)
+         out, exact, info, decided=dec_slip)
     if natural:
         _cmp(ctx, 'slip_vector:cutoff', 'slip_vector(cutoff=)', _guard(lambda: am.defect.slip_vector(s0, s1, cutoff=cut)[sel]),
-             out, exact, info)
+             out, exact, info, decided=dec_slip)
     # differential displacement -------------------------------------------------------------
     offs = np.concatenate([[0], np.cumsum([len(nl0[i]) for i in range(n)])])
     rows = np.concatenate([np.arange(offs[i], offs[i + 1]) for i in sel]).astype(int)
@@ -660,7 +693,7 @@ def _corr_slip_one(ctx, rng, ref, caseseed, it0, it, dyadic):
                      f'{int(offs[-1])} pairs', info)
     else:
         _cmp(ctx, 'ddvectors', 'DifferentialDisplacement(neighbors=, reference=0).ddvectors',
-             ddv if isinstance(ddv, _Raised) else ddv[rows], out, exact, info)
+             ddv if isinstance(ddv, _Raised) else ddv[rows], out, exact, info, decided=dec_rows(rows))
     if natural:
         ddv = _guard(lambda: am.defect.DifferentialDisplacement(s0, s1, cutoff=cut, reference=0).ddvectors)
         if not isinstance(ddv, _Raised) and len(ddv) != offs[-1]:
@@ -668,7 +701,7 @@ def _corr_slip_one(ctx, rng, ref, caseseed, it0, it, dyadic):
                          'system0\'s neighbour list', info)
         else:
             _cmp(ctx, 'ddvectors:cutoff', 'DifferentialDisplacement(cutoff=, reference=0).ddvectors',
-                 ddv if isinstance(ddv, _Raised) else ddv[rows], out, exact, info)
+                 ddv if isinstance(ddv, _Raised) else ddv[rows], out, exact, info, decided=dec_rows(rows))
     if natural and it % 3 == 0 and it % 4 < 2:      # (lists are only built for systems whose atoms are inside the box)
         nl1 = s1.neighborlist(cutoff=cut)
         offs1 = np.concatenate([[0], np.cumsum([len(nl1[i]) for i in range(n)])])
@@ -681,7 +714,7 @@ def _corr_slip_one(ctx, rng, ref, caseseed, it0, it, dyadic):
                          'system1\'s neighbour list', info)
         else:
             _cmp(ctx, 'ddvectors:ref1', 'DifferentialDisplacement(cutoff=).ddvectors (reference=1)', dd.ddvectors[rows1],
-                 out1, exact, info)
+                 out1, exact, info, decided=dec_rows(rows1, nl1))
     # disregistry ---------------------------------------------------------------------------
     ax = sc['axis']
     mdir = rng.choice([k for k in range(3) if k != ax])
@@ -691,6 +724,8 @@ def _corr_slip_one(ctx, rng, ref, caseseed, it0, it, dyadic):
     nn[ax] = 1.0
     planepos = [0.0, 0.0, 0.0]
     planepos[ax] = sc['mid']
+    if dec_disp is not None and not dec_disp.all():
+        return                                  # (a displacement at a nearest-image tie: the profile is not compared)
     _corr_disreg(ctx, s0, s1, m, nn, planepos, exact, dict(info, m=m, n=nn, planepos=planepos), canon)
     if it % 2 == 1:
         # a smooth non-rigid field on top: means over columns and interpolation do real work
@@ -932,10 +967,14 @@ def _corr_match(ctx, caseseed, N):
 def correspond(ctx):
     rng = ctx.rng
     for it in range(ctx.n(10, 45)):
-        _corr_slip(ctx, rng.getrandbits(48), it)
+        _guarded_case(ctx, 'corr', _corr_slip, rng.getrandbits(48), it)
     for it in range(ctx.n(10, 40)):
-        _corr_strain(ctx, rng.getrandbits(48), it)
+        _guarded_case(ctx, 'corr', _corr_strain, rng.getrandbits(48), it)
     _corr_match(ctx, rng.getrandbits(48), ctx.n(250, 2500))
+    for it in range(ctx.n(8, 40)):
+        _guarded_case(ctx, 'corr', _strain_sequence, rng.getrandbits(48), it, True)
+    for it in range(ctx.n(8, 40)):
+        _guarded_case(ctx, 'corr', _dd_sequence, rng.getrandbits(48), it, True)
 
 
 # ----------------------------------------------------------------------------------------
@@ -1424,13 +1463,720 @@ def _search_homog_one(ctx, rng, ref, nl0, caseseed, it0, it):
         fail('renumbering:Strain.nye', 'Nye tensor not zero after renumbering', perm=perm)
 
 
+# ----------------------------------------------------------------------------------------
+# every way of supplying the reference (p vectors) to Strain / nye_tensor
+# ----------------------------------------------------------------------------------------
+def _rh(u, v):
+    w = [u[1] * v[2] - u[2] * v[1], u[2] * v[0] - u[0] * v[2], u[0] * v[1] - u[1] * v[0]]
+    g = math.gcd(math.gcd(abs(w[0]), abs(w[1])), abs(w[2])) or 1
+    return [u, v, [x // g for x in w]]
+
+
+# right-handed orthogonal integer triples (third = first x second)
+_CRYST_AXES = [_rh([1, -1, 0], [1, 1, -2]), _rh([1, 1, -2], [-1, 1, 0]), _rh([1, 0, 0], [0, 1, -1]), _rh([0, 1, 0], [0, 0, 1]),
+               _rh([0, -1, 0], [1, 0, 0]), _rh([1, 2, 2], [2, 1, -2]), _rh([2, 3, 6], [3, -6, 2]), _rh([1, 1, 1], [1, -1, 0])]
+
+
+def _rand_axes(rng, np):
+    """(axes as handed over, unit axes T as rows): crystallographic integer triples (not normalised), signed
+    permutations, generic rational rotations (Cayley, angles up to ~100 degrees), the identity now and then."""
+    r = rng.random()
+    if r < 0.45:
+        ax = np.array(rng.choice(_CRYST_AXES), dtype=float)
+        if rng.random() < 0.5:
+            ax = ax * np.array([[rng.choice([1, 2, 0.5])], [1.0], [rng.choice([1, 3])]])
+    elif r < 0.9:
+        w = [Fraction(rng.randint(-24, 24), 16) for _ in range(3)]
+        if not any(w):
+            w[2] = Fraction(5, 16)
+        I = [[Fraction(int(i == j)) for j in range(3)] for i in range(3)]
+        S = [[0, -w[2], w[1]], [w[2], 0, -w[0]], [-w[1], w[0], 0]]
+        R = _matmul(_inv3([[I[i][j] - S[i][j] for j in range(3)] for i in range(3)]),
+                    [[I[i][j] + S[i][j] for j in range(3)] for i in range(3)])
+        ax = np.array([[float(v) for v in row] for row in R])
+    else:
+        ax = np.identity(3)
+    T = ax / np.linalg.norm(ax, axis=1)[:, None]
+    return ax, T
+
+
+def _shared_set(pv, np, tol=1e-7):
+    """the common neighbour-vector set when every atom has the same one (as a set), else None."""
+    p0 = pv[0]
+    for p in pv[1:]:
+        if len(p) != len(p0):
+            return None
+        d = np.abs(p[:, None, :] - p0[None, :, :]).max(2)
+        if not ((d < tol).any(1).all() and (d < tol).any(0).all()):
+            return None
+    return p0
+
+
+def _p_supply(rng, pv, n, np, how=None):
+    """one way of handing the per-atom reference vectors `pv` over: returns (label, make) where make() gives fresh
+    (p_vectors, axes, wire) — wire = the `so setp` argument text for the model (unit axes computed here)."""
+    shared = _shared_set(pv, np)
+    kinds = ['list', 'list']
+    if len({len(p) for p in pv}) == 1:
+        kinds.append('array')
+    if shared is not None and len(shared) not in (1, n):
+        kinds += ['shared', 'shared', 'shared1']
+    kind = how if how in kinds else rng.choice(kinds)
+    with_axes = rng.random() < 0.65
+    ax, T = _rand_axes(rng, np) if with_axes else (None, None)
+
+    # components of p in the frame whose unit axes are the rows of T: p_c = T^T p, i.e. the row vector p @ T
+    order = list(range(len(shared))) if shared is not None else []
+    rng.shuffle(order)
+
+    def make():
+        if kind == 'list':
+            pa = [(p.copy() if T is None else p @ T) for p in pv]
+            wire = 'nested %d %s' % (n, ' '.join('%d %s' % (len(q), cm.frs(q)) for q in pa))
+            arg = [q.copy() for q in pa] if rng.random() < 0.5 else [q.tolist() for q in pa]
+        elif kind == 'array':
+            pa = np.array([(p if T is None else p @ T) for p in pv])
+            wire = 'nested %d %s' % (n, ' '.join('%d %s' % (len(q), cm.frs(q)) for q in pa))
+            arg = pa.copy()
+        else:
+            q = shared[order]
+            q = q.copy() if T is None else q @ T
+            if kind == 'shared':
+                wire = 'flat %d %s' % (len(q), cm.frs(q))
+                arg = q.copy() if rng.random() < 0.5 else q.tolist()
+            else:
+                wire = 'nested 1 %d %s' % (len(q), cm.frs(q))
+                arg = [q.copy()]
+        axw = '0' if T is None else '1 ' + cm.frs(T)
+        return arg, (None if ax is None else ax.copy()), axw + ' ' + wire
+    label = kind + ('' if ax is None else '+axes' + str(np.round(ax, 4).tolist()))
+    return label, make
+
+
+_SPROPS = [('G', 'G'), ('strain', 'strain'), ('rotation', 'rotation'), ('invariant1', 'inv1'), ('invariant2', 'inv2'),
+           ('invariant3', 'inv3'), ('angularvelocity', 'angvel2'), ('nye', 'nye')]
+
+
+def _exact_measures(Fq, Aq):
+    """G = (F A^-1)^-T and what follows from it, exactly (Fractions) -> dict of float arrays / floats."""
+    np = _np()
+    M = _matmul(Fq, _inv3(Aq))
+    Mi = _inv3(M)
+    Gq = [[Mi[j][i] for j in range(3)] for i in range(3)]
+    I = [[Fraction(int(i == j)) for j in range(3)] for i in range(3)]
+    Eq = [[((I[j][k] - Gq[j][k]) + (I[k][j] - Gq[k][j])) / 2 for k in range(3)] for j in range(3)]
+    Rq = [[((I[j][k] - Gq[j][k]) - (I[k][j] - Gq[k][j])) / 2 for k in range(3)] for j in range(3)]
+    i1 = Eq[0][0] + Eq[1][1] + Eq[2][2]
+    i2 = (Eq[0][0] * Eq[1][1] + Eq[0][0] * Eq[2][2] + Eq[1][1] * Eq[2][2] - Eq[0][1] ** 2 - Eq[0][2] ** 2 - Eq[1][2] ** 2)
+    i3 = _det3(Eq)
+    av2 = Rq[0][1] ** 2 + Rq[0][2] ** 2 + Rq[1][2] ** 2
+
+    def f(m):
+        return np.array([[float(v) for v in r] for r in m])
+    return {'G': f(Gq), 'strain': f(Eq), 'rotation': f(Rq), 'invariant1': float(i1), 'invariant2': float(i2),
+            'invariant3': float(i3), 'angularvelocity': math.sqrt(float(av2)), 'nye': np.zeros((3, 3))}
+
+
+def _small_reference(rng, nmax=40):
+    """a reference crystal with at most nmax atoms (object sequences evaluate every atom in the model)."""
+    for _ in range(40):
+        ref = _reference(rng, rng.choice(['bcc', 'B2', 'fcc', 'L12', 'hcp', 'hcp2', 'fcc-bct', 'fcc-111', 'bcc-prim']), False)
+        if ref[0].natoms <= nmax:
+            return ref
+    return _reference(rng, 'bcc', False)
+
+
+def _strain_sequence(ctx, caseseed, it, tie):
+    """ONE Strain object under a sequence of operations: reads of every cached property, new p vectors through
+    set_p_vectors (every supply form, with/without axes) and build_p_vectors (neighbors= / cutoff=), theta_max setter,
+    solve_G() / solve_G(theta_max=), clear_properties(), in-place change of the analysed system (positions + box).
+    tie=True  : every reply (also the stale ones the code keeps by design when inputs change without solve_G) is
+                compared with the Lean object model `SObj` (correspondence);
+    tie=False : whenever the object was solved/cleared after the last input change, every read is compared with the
+                exact expectation G = (F A^-1)^-T for the CURRENT deformation F and CURRENT reference A and with a
+                fresh object built from the current inputs (oracle)."""
+    np = _np()
+    import atomman as am
+    import warnings
+    rng = random.Random(caseseed)
+    ref = _small_reference(rng, 40 if tie else 120)
+    s0, name, a, shells, size = ref
+    n = s0.natoms
+    cut = shells[0][0] * a
+    nl0 = s0.neighborlist(cutoff=cut)
+    Fs = [_rand_F(rng, k) for k in ('general', 'general', 'rotation')]
+    As = [[[1.0, 0, 0], [0, 1.0, 0], [0, 0, 1.0]], _rand_F(rng, 'strain'), _rand_F(rng, 'general')]
+    base = {'op': 'corr-sobj' if tie else 'search-sobj', 'caseseed': caseseed, 'it': it, 'crystal': name, 'a': a,
+            'size': list(size), 'cutoff': cut, 'F': Fs, 'A': As}
+    refs = [s0 if k == 0 else _deform(s0, As[k]) for k in range(3)]                  # the reference crystals A_k(s0)
+    pvs = [[np.atleast_2d(r.dvect(i, nl0[i])).copy() for i in range(n)] for r in refs]
+    cur = {'F': 0, 'A': None, 'theta': 27.0, 'claim': False}
+    sys1 = _deform(s0, Fs[0])
+    nl1 = sys1.neighborlist(cutoff=cut * 1.04)
+    log = []
+
+    def cosd(th):
+        return math.cos(th * math.pi / 180.0)
+
+    def ask(line):
+        return ctx.driver.ask(line) if tie else None
+
+    def note(txt):
+        log.append(txt)
+
+    def report(key, what, **kw):
+        (ctx.disagree if tie else ctx.violate)(key, what + '  [operations on this object: ' + '; '.join(log) + ']',
+                                               dict(base, ops=list(log), **kw))
+    # construction ---------------------------------------------------------------------------------------
+    init = rng.choice(['none', 'base+nl', 'base+cut', 'pvec', 'pvec'])
+    kA = rng.randrange(3)
+    with warnings.catch_warnings():
+        warnings.simplefilter('ignore')
+        try:
+            if init == 'none':
+                st = am.defect.Strain(sys1, neighbors=nl1)
+                note('Strain(system, neighbors)')
+            elif init == 'base+nl':
+                st = am.defect.Strain(sys1, neighbors=nl1, basesystem=refs[kA], baseneighbors=nl0)
+                note(f'Strain(system, neighbors, basesystem=A{kA}, baseneighbors)')
+                cur['A'] = kA
+            elif init == 'base+cut':
+                st = am.defect.Strain(sys1, cutoff=cut, basesystem=refs[kA])
+                nl1 = st.neighbors
+                note(f'Strain(system, cutoff, basesystem=A{kA})')
+                cur['A'] = kA
+            else:
+                label, make = _p_supply(rng, pvs[kA], n, np)
+                arg, ax, wire = make()
+                st = am.defect.Strain(sys1, neighbors=nl1, p_vectors=arg, axes=ax)
+                note(f'Strain(system, neighbors, p_vectors=A{kA} as {label})')
+                cur['A'] = kA
+        except Exception as e:   # noqa
+            report('Strain:raises', f'Strain constructor raised {type(e).__name__}: {e}')
+            return
+    cur['claim'] = cur['A'] is not None
+    if tie:
+        out = ask(f'so new {_cell(sys1)} {n} {cm.frs(sys1.atoms.pos)} {_nlist_tokens(nl1, n)} {cm.fr(27.0)} {cm.fr(cosd(27.0))}')
+        if init in ('base+nl', 'base+cut'):
+            out = ask(f'so buildp {_cell(refs[kA])} {n} {cm.frs(refs[kA].atoms.pos)} {_nlist_tokens(nl0, n)}')
+        elif init == 'pvec':
+            out = ask('so setp ' + wire)
+        if out != 'ok':
+            report('sobj:driver', f'model refused the construction ({out})')
+            return
+    sel = list(range(n))
+    seltok = _sel_tokens(sel)
+    ctx.stats.case('sobj:' + ('tie' if tie else 'oracle'), (caseseed, it), sample=base)
+    nops = rng.randint(6, 11)
+    exps = {}
+    for step in range(nops):
+        r = rng.random()
+        with warnings.catch_warnings():
+            warnings.simplefilter('ignore')
+            if r < 0.45 or step == nops - 1:
+                # ---- reads --------------------------------------------------------------------------
+                names = rng.sample(_SPROPS, rng.randint(1, 4))
+                if rng.random() < 0.2:
+                    names = [x for x in _SPROPS if x[0] not in ('G', 'rotation')]          # asdict() order
+                    note('asdict()')
+                    got = _guard(lambda: st.asdict())
+                    vals = [(_Raised(Exception(got.text)) if isinstance(got, _Raised) else got[a_]) for a_, _ in names]
+                else:
+                    vals = []
+                    for a_, _ in names:
+                        note('read ' + a_)
+                        vals.append(_guard(lambda: np.array(getattr(st, a_))))
+                for (attr, mname), val in zip(names, vals):
+                    if tie:
+                        out = ask(f'so read {mname} {seltok}')
+                        if isinstance(val, _Raised):
+                            if out != 'err:value' or 'Cannot solve until p_vectors are set' not in val.text:
+                                report('sobj:' + attr, f'reading .{attr} raised {val.text}, model: {out[:40]}')
+                            continue
+                        if out.startswith('err:'):
+                            report('sobj:' + attr, f'reading .{attr} returned values, the model refuses ({out})')
+                            continue
+                        impl = val ** 2 if attr == 'angularvelocity' else val
+                        d = _maxdiff(impl, _floats(out))
+                        if d > 2e-9:
+                            report('sobj:' + attr, f'.{attr} differs from the object model by {float(d):.3e}')
+                    else:
+                        if cur['A'] is None:
+                            if not isinstance(val, _Raised) or 'p_vectors' not in val.text:
+                                report('sobj:no-reference', f'.{attr} without p vectors: expected the ValueError of solve_G, got '
+                                       f'{val.text if isinstance(val, _Raised) else "values"}')
+                            continue
+                        if not cur['claim']:
+                            continue
+                        if isinstance(val, _Raised):
+                            report('sobj:raises', f'reading .{attr} raised {val.text}')
+                            continue
+                        key = (cur['F'], cur['A'])
+                        if key not in exps:
+                            exps[key] = _exact_measures(_fr_mat(Fs[key[0]]), _fr_mat(As[key[1]]))
+                        want = exps[key][attr]
+                        tolv = 1e-8 / a if attr == 'nye' else 2e-9
+                        dv = np.abs(val - want).reshape(n, -1).max(1) if np.shape(val)[:1] == (n,) else np.array([np.inf])
+                        if not np.isfinite(val).all() or dv.max() > tolv:
+                            k = int(dv.argmax())
+                            report('sobj:' + attr, f'.{attr}[{k}] = {np.asarray(val)[k].tolist() if len(dv) == n else np.shape(val)} after '
+                                   f'the last solve/clear; from the current inputs (F{key[0]}, reference A{key[1]}): '
+                                   f'{np.asarray(want).tolist()}', atom=k)
+                continue
+            if r < 0.6:
+                # ---- new reference through set_p_vectors ----------------------------------------------
+                kA = rng.randrange(3)
+                label, make = _p_supply(rng, pvs[kA], n, np)
+                arg, ax, wire = make()
+                note(f'set_p_vectors(A{kA} as {label})')
+                res = _guard(lambda: st.set_p_vectors(arg, axes=ax))
+                if isinstance(res, _Raised):
+                    report('set_p_vectors:raises', f'set_p_vectors raised {res.text}')
+                    return
+                cur['A'], cur['claim'] = kA, False
+                if tie and ask('so setp ' + wire) != 'ok':
+                    report('sobj:driver', 'model refused set_p_vectors')
+                    return
+            elif r < 0.7:
+                kA = rng.randrange(3)
+                viacut = rng.random() < 0.5
+                note(f'build_p_vectors(A{kA}, {"cutoff" if viacut else "neighbors"})')
+                res = _guard(lambda: st.build_p_vectors(refs[kA], cutoff=cut) if viacut else st.build_p_vectors(refs[kA], neighbors=nl0))
+                if isinstance(res, _Raised):
+                    report('build_p_vectors:raises', f'build_p_vectors raised {res.text}')
+                    return
+                cur['A'], cur['claim'] = kA, False
+                if tie and ask(f'so buildp {_cell(refs[kA])} {n} {cm.frs(refs[kA].atoms.pos)} {_nlist_tokens(nl0, n)}') != 'ok':
+                    report('sobj:driver', 'model refused build_p_vectors')
+                    return
+            elif r < 0.76:
+                th = rng.choice([25.0, 27.0, 29.0, 30, 0, -4.0, 181.0, 400, 26.5])
+                note(f'theta_max = {th}')
+                st.theta_max = th
+                if 0 < th <= 180:
+                    cur['theta'] = float(th)
+                    cur['claim'] = False
+                if tie:
+                    ask(f'so theta {cm.fr(float(th))} {cm.fr(cosd(float(th)))}')
+            elif r < 0.9:
+                th = rng.choice([None, None, 25.0, 28.0, 30, 0, 200.0])
+                note('solve_G()' if th is None else f'solve_G(theta_max={th})')
+                res = _guard(lambda: st.solve_G() if th is None else st.solve_G(theta_max=th))
+                out = ask('so solve 0' if th is None else f'so solve 1 {cm.fr(float(th))} {cm.fr(cosd(float(th)))}')
+                if isinstance(res, _Raised):
+                    if cur['A'] is not None or 'p_vectors' not in res.text:
+                        report('solve_G:raises', f'solve_G raised {res.text}')
+                        return
+                    if tie and out != 'err:value':
+                        report('sobj:solve', f'solve_G raised {res.text}, the model did not refuse')
+                    continue
+                if tie and out != 'ok':
+                    report('sobj:solve', f'solve_G returned, the model refuses ({out})')
+                    return
+                if th is not None and 0 < th <= 180:
+                    cur['theta'] = float(th)
+                cur['claim'] = cur['A'] is not None
+            elif r < 0.94:
+                note('clear_properties()')
+                st.clear_properties()
+                cur['claim'] = cur['A'] is not None
+                if tie:
+                    ask('so clear')
+            else:
+                # ---- the analysed system changes in place (same System object, same neighbour list) --------
+                kF = rng.randrange(3)
+                note(f'system changed in place to F{kF}')
+                new = _deform(s0, Fs[kF])
+                # (same topology: keep every atom in the image the neighbour list was built for is not needed,
+                #  dvect takes the nearest image)
+                sys1.box_set(vects=new.box.vects, origin=new.box.origin, scale=False)
+                sys1.atoms.pos[:] = new.atoms.pos
+                cur['F'], cur['claim'] = kF, False
+                if tie:
+                    # the model's object holds cell and positions by value: rebuild its system part
+                    out = ask(f'so setsys {_cell(sys1)} {cm.frs(sys1.atoms.pos)}')
+                    if out != 'ok':
+                        report('sobj:driver', f'model refused the system change ({out})')
+                        return
+    if not tie and cur['A'] is not None:
+        # final: solve, read everything, compare with a fresh object built from the current inputs
+        with warnings.catch_warnings():
+            warnings.simplefilter('ignore')
+            note('solve_G()')
+            res = _guard(lambda: st.solve_G())
+            if isinstance(res, _Raised):
+                report('solve_G:raises', f'solve_G raised {res.text}')
+                return
+            fresh = _guard(lambda: am.defect.Strain(sys1, neighbors=nl1, p_vectors=[np.array(p, dtype=float) for p in st.p_vectors],
+                                                    theta_max=st.theta_max))
+            if isinstance(fresh, _Raised):
+                report('Strain:raises', f'fresh Strain from the current inputs raised {fresh.text}')
+                return
+            for attr, _ in _SPROPS:
+                x = _guard(lambda: np.array(getattr(st, attr)))
+                y = _guard(lambda: np.array(getattr(fresh, attr)))
+                if isinstance(x, _Raised) or isinstance(y, _Raised):
+                    report('sobj:raises', f'.{attr} raised {(x if isinstance(x, _Raised) else y).text}')
+                elif x.shape != y.shape or np.abs(x - y).max() > 1e-12:
+                    report('sobj:fresh:' + attr, f'.{attr} after solve_G differs from a fresh object built from the same current '
+                           f'inputs by {np.abs(x - y).max() if x.shape == y.shape else "shape"}')
+
+
+def _lists_of(nl, n):
+    return [[int(j) for j in nl[i]] for i in range(n)]
+
+
+def _lists_tokens(lists):
+    return str(len(lists)) + ' ' + ' '.join(' '.join([str(len(l))] + [str(j) for j in l]) for l in lists)
+
+
+def _dd_sequence(ctx, caseseed, it, tie):
+    """ONE DifferentialDisplacement object under a sequence of solve() calls with every subset of the optional
+    arguments (system0, system1, neighbors, cutoff, reference), starting from every constructor form.
+    tie=True : replies, stored vectors, stored list and reference compared with the Lean object model `DObj` after
+               every call, including the refused ones (AssertionError / ValueError);
+    tie=False: after every successful call the stored vectors are compared with the exact expectation for the
+               CURRENT systems and CURRENT list (true-nearest-image oracle, each separation under its own system's
+               cell) and with a fresh object."""
+    np = _np()
+    import atomman as am
+    rng = random.Random(caseseed)
+    ref = _small_reference(rng, 130)
+    s0, name, a, shells, size = ref
+    sc = _slip_case(rng, s0, a, False, shells)
+    if sc is None:
+        return
+    n = s0.natoms
+    pbc = sc['pbc']
+    s0.pbc = pbc
+    cut = sc['cutoff']
+    # a second cutoff selecting more neighbours, every periodic width still above twice the cutoff (else 1.02 cut)
+    wmin = min([w for w, p_ in zip(_widths(s0.box.vects, np), pbc) if p_] or [float('inf')])
+    c2s = [f * cut for f in (1.25, 1.45, 1.2) if 2.05 * f * cut < wmin]
+    cut2 = rng.choice(c2s) if c2s else cut * 1.02
+    du = sc['du']
+    du2 = np.where(sc['side'][:, None], 0.5 * sc['uA'] + np.array([0.011, -0.007, 0.0]) * a, sc['uB'])
+
+    def wrapped(pos, pb):
+        t = _system(s0, pos, pbc=pb)
+        t.wrap()
+        return t
+    p2 = list(pbc)
+    kf = rng.randrange(3)
+    p2[kf] = not p2[kf]
+    systems = {'S0': wrapped(s0.atoms.pos.copy(), pbc), 'S1a': wrapped(s0.atoms.pos + du, pbc), 'S1b': wrapped(s0.atoms.pos + du2, pbc),
+               'S1c': wrapped(s0.atoms.pos + du, tuple(p2))}
+    bad = am.System(atoms=am.Atoms(atype=1, pos=s0.atoms.pos[:-1].copy()), box=s0.box, pbc=pbc)
+    base = {'op': 'corr-dobj' if tie else 'search-dobj', 'caseseed': caseseed, 'it': it, 'crystal': name, 'a': a,
+            'size': list(size), 'pbc': list(pbc), 'cutoff': cut, 'cutoff2': cut2, 'uA': sc['uA'].tolist(), 'uB': sc['uB'].tolist()}
+    full = _lists_of(systems['S0'].neighborlist(cutoff=cut), n)
+    half = [[j for j in l if j > i] for i, l in enumerate(full)]
+    named_lists = {'NL0': full, 'HALF': half}
+    nlobjs = {k: _mk_nlist(am, systems['S0'], v) for k, v in named_lists.items()}
+    cutlists = {}
+
+    def cutlist(sname, c):
+        if (sname, c) not in cutlists:
+            cutlists[(sname, c)] = _lists_of(systems[sname].neighborlist(cutoff=c), n)
+        return cutlists[(sname, c)]
+    log = []
+    cur = {'s0': None, 's1': None, 'ref': None, 'lists': None, 'valid': False}
+
+    def report(key, what, **kw):
+        (ctx.disagree if tie else ctx.violate)(key, what + '  [calls on this object: ' + '; '.join(log) + ']',
+                                               dict(base, ops=list(log), **kw))
+
+    def systok(t):
+        return f'{_cell(t)} {t.natoms} {cm.frs(t.atoms.pos)}'
+
+    def gen_args(first):
+        kw = {}
+        names = {}
+        if first or rng.random() < 0.25:
+            names['system0'] = 'S0'
+        if first or rng.random() < 0.45:
+            names['system1'] = rng.choice(['S1a', 'S1b', 'S1c'] + (['BAD'] if tie and not first and rng.random() < 0.3 else []))
+        r = rng.random()
+        if r < (0.35 if first else 0.25):
+            names['neighbors'] = rng.choice(['NL0', 'HALF'])
+        elif r < (0.75 if first else 0.5):
+            names['cutoff'] = rng.choice([cut, cut2])
+            if rng.random() < 0.1:
+                names['neighbors'] = rng.choice(['NL0', 'HALF'])          # both given: the list wins
+        if first:
+            names['reference'] = rng.choice([0, 1])
+        elif rng.random() < 0.4:
+            names['reference'] = rng.choice([0, 1, 0, 1, 2] if tie else [0, 1])
+        return names
+
+    def wire_args(names, first):
+        parts = []
+        for k in ('system0', 'system1'):
+            if first:
+                continue
+            parts.append('1 ' + systok(bad if names.get(k) == 'BAD' else systems[names[k]]) if k in names else '0')
+        if first:
+            parts += ['0', '0']
+        parts.append('1 ' + _lists_tokens(named_lists[names['neighbors']]) if 'neighbors' in names else '0')
+        if 'cutoff' in names:
+            e0 = names.get('system0') or cur['s0']
+            e1 = names.get('system1') or cur['s1']
+            l0 = cutlist(e0, names['cutoff'])
+            l1 = cutlist(e1, names['cutoff']) if e1 != 'BAD' else l0
+            parts.append('1 ' + _lists_tokens(l0) + ' ' + _lists_tokens(l1))
+        else:
+            parts.append('0')
+        parts.append('1 %d' % names['reference'] if 'reference' in names else '0')
+        return ' '.join(parts)
+
+    def kwargs(names):
+        kw = {}
+        for k in ('system0', 'system1'):
+            if k in names:
+                kw[k] = bad if names[k] == 'BAD' else systems[names[k]]
+        if 'neighbors' in names:
+            kw['neighbors'] = nlobjs[names['neighbors']]
+        if 'cutoff' in names:
+            kw['cutoff'] = names['cutoff']
+        if 'reference' in names:
+            kw['reference'] = names['reference']
+        return kw
+
+    def shadow(names):
+        """documented meaning of a successful call (oracle mode: only admissible arguments are generated)."""
+        if 'system0' in names:
+            cur['s0'] = names['system0']
+        if 'system1' in names:
+            cur['s1'] = names['system1']
+        if 'reference' in names:
+            cur['ref'] = names['reference']
+        if 'neighbors' in names:
+            cur['lists'] = named_lists[names['neighbors']]
+        elif 'cutoff' in names:
+            cur['lists'] = cutlist(cur['s0'] if cur['ref'] == 0 else cur['s1'], names['cutoff'])
+
+    def classify(e):
+        return 'err:assert' if isinstance(e, AssertionError) else 'err:value' if isinstance(e, ValueError) else 'err:other'
+
+    def compare_state(obj):
+        if tie:
+            out = ctx.driver.ask('do read')
+            dd = obj.ddvectors
+            if dd is None or out == 'none':
+                if not (dd is None and out == 'none'):
+                    report('dobj:ddvectors', f'ddvectors is {"None" if dd is None else "an array"}, the model holds {out[:20]}')
+            else:
+                toks = out.split()
+                if int(toks[0]) != len(dd):
+                    report('dobj:ddvectors', f'{len(dd)} stored vectors, the model holds {toks[0]}')
+                else:
+                    model = [Fraction(t) for t in toks[1:]]
+                    u0, u1, ul = cur['used']
+                    # rows at a nearest-image tie (exhaustive oracle) are left out: rounding may break it differently
+                    dec = _expect_pairs(systems[u0], systems[u1], (systems[u1].box.vects, systems[u1].pbc),
+                                        _mk_nlist(am, systems[u0], ul), np)[3]
+                    if len(dec) == len(dd):
+                        keep = np.repeat(dec, 3)
+                        model = [m_ for m_, k_ in zip(model, keep) if k_]
+                        ddc = dd[dec]
+                    else:
+                        ddc = dd
+                    if _maxdiff(ddc, model) > 1e-9:
+                        report('dobj:ddvectors', f'stored ddvectors differ from the object model by {float(_maxdiff(ddc, model)):.3e}')
+            out = ctx.driver.ask('do state').split()
+            nlo = obj.neighbors
+            mine = 'none' if nlo is None else _lists_tokens(_lists_of(nlo, len(nlo.coord)))
+            if int(out[0]) != obj.reference or ' '.join(out[1:]) != mine:
+                report('dobj:state', f'reference / stored neighbour list differ from the object model (reference {obj.reference} vs {out[0]})')
+        elif cur['valid']:
+            S0_, S1_ = systems[cur['s0']], systems[cur['s1']]
+            lists = cur['lists']
+            nlx = _mk_nlist(am, S0_, lists)
+            I, J, exp, dec = _expect_pairs(S0_, S1_, (S1_.box.vects, S1_.pbc), nlx, np)
+            dd = obj.ddvectors
+            if dd is None or dd.shape != exp.shape:
+                report('dobj:ddvectors', f'after a successful solve ddvectors has shape {None if dd is None else dd.shape}, the current list has {len(exp)} pairs')
+            elif dec.any() and np.abs(dd - exp)[dec].max() > 1e-9 * float(np.abs(S0_.box.vects).max()):
+                k = int(np.where(dec[:, None], np.abs(dd - exp), 0).max(1).argmax())
+                report('dobj:ddvectors', f'after solve, ddvectors[{k}] (pair {int(I[k])}-{int(J[k])}) = {dd[k].tolist()}; for the current '
+                       f'systems ({cur["s0"]}, {cur["s1"]}) and the current list the difference of periodic separations is {exp[k].tolist()}',
+                       pair=k)
+            fresh = _guard(lambda: am.defect.DifferentialDisplacement(S0_, S1_, neighbors=nlx, reference=cur['ref']).ddvectors)
+            if isinstance(fresh, _Raised):
+                report('dobj:raises', f'fresh object from the current inputs raised {fresh.text}')
+            elif dd is not None and (fresh.shape != dd.shape or np.abs(fresh - dd).max() > 1e-12):
+                report('dobj:fresh', 'stored ddvectors differ from those of a fresh object built from the current systems, list and reference')
+    # constructor --------------------------------------------------------------------------------------------
+    names = gen_args(True)
+    form = rng.random()
+    if form < 0.25:
+        names.pop('neighbors', None)
+        names.pop('cutoff', None)
+    log.append('DifferentialDisplacement(' + ', '.join(f'{k}={v}' for k, v in names.items()) + ')')
+    obj = _guard(lambda: am.defect.DifferentialDisplacement(systems[names['system0']], systems[names['system1']],
+                                                            **{k: v for k, v in kwargs(names).items() if k not in ('system0', 'system1')}))
+    cur['s0'], cur['s1'], cur['ref'] = names['system0'], names['system1'], names['reference']
+    if tie:
+        out = ctx.driver.ask(f'do new {systok(systems[names["system0"]])} {systok(systems[names["system1"]])} {wire_args(names, True)}')
+        if isinstance(obj, _Raised) or out != 'ok':
+            if isinstance(obj, _Raised) and out.startswith('err:') and not out.startswith('err:format'):
+                return
+            report('dobj:new', f'constructor: implementation {"raised " + obj.text if isinstance(obj, _Raised) else "ok"}, model {out}')
+            return
+    elif isinstance(obj, _Raised):
+        report('dobj:raises', f'constructor raised {obj.text}')
+        return
+    ctx.stats.case('dobj:' + ('tie' if tie else 'oracle'), (caseseed, it), sample=base)
+    if 'neighbors' in names or 'cutoff' in names:
+        shadow(names)
+        cur['valid'] = True
+        cur['used'] = (cur['s0'], cur['s1'], _lists_of(obj.neighbors, n))
+    compare_state(obj)
+    for step in range(rng.randint(3, 7)):
+        names = gen_args(False)
+        if not tie and cur['lists'] is None and 'neighbors' not in names and 'cutoff' not in names:
+            names['cutoff'] = cut
+        log.append('solve(' + ', '.join(f'{k}={v}' for k, v in names.items()) + ')')
+        res = _guard(lambda: obj.solve(**kwargs(names)))
+        if tie:
+            # (what the model needs to know about system names it has not seen yet)
+            for k in ('system0', 'system1'):
+                if k in names:
+                    cur['s0' if k == 'system0' else 's1'] = names[k]
+            out = ctx.driver.ask('do solve ' + wire_args(names, False))
+            got = 'ok' if not isinstance(res, _Raised) else \
+                ('err:assert' if res.text.startswith('AssertionError') else 'err:value' if res.text.startswith('ValueError') else res.text)
+            if got != out:
+                report('dobj:solve', f'solve: implementation {got}, model {out}')
+                return
+            if got == 'ok':
+                cur['used'] = (cur['s0'], cur['s1'], _lists_of(obj.neighbors, n))
+            if cur['s1'] == 'BAD':
+                # the object now refers to a system with another number of atoms: later calls must replace it
+                cur['s1'] = None
+                names2 = {'system1': rng.choice(['S1a', 'S1b'])}
+                log.append('solve(' + ', '.join(f'{k}={v}' for k, v in names2.items()) + ')')
+                res2 = _guard(lambda: obj.solve(**kwargs(names2)))
+                cur['s1'] = names2['system1']
+                out2 = ctx.driver.ask('do solve ' + wire_args(names2, False))
+                got2 = 'ok' if not isinstance(res2, _Raised) else \
+                    ('err:assert' if res2.text.startswith('AssertionError') else 'err:value' if res2.text.startswith('ValueError') else res2.text)
+                if got2 != out2:
+                    report('dobj:solve', f'solve: implementation {got2}, model {out2}')
+                    return
+                if got2 == 'ok':
+                    cur['used'] = (cur['s0'], cur['s1'], _lists_of(obj.neighbors, n))
+        else:
+            if isinstance(res, _Raised):
+                report('dobj:raises', f'solve raised {res.text}')
+                return
+            shadow(names)
+            cur['valid'] = True
+        compare_state(obj)
+
+
+def _search_p_supply(ctx, caseseed, it):
+    """homogeneous deformation analysed with the reference handed over in every form: p_vectors shared (m,3) /
+    [(m,3)] / per-atom lists / per-atom array, with and without `axes` for generic orientations, through the
+    Strain constructor, set_p_vectors on an existing object, and the older nye_tensor()."""
+    np = _np()
+    import atomman as am
+    import warnings
+    rng = random.Random(caseseed)
+    ref = _reference(rng, None, False)
+    s0, name, a, shells, size = ref
+    n = s0.natoms
+    cut = shells[0][0] * a
+    nl0 = s0.neighborlist(cutoff=cut)
+    pv = [np.atleast_2d(s0.dvect(i, nl0[i])).copy() for i in range(n)]
+    for rep in range(3):
+        F = _rand_F(rng, ['general', 'rotation', 'strain'][(it + rep) % 3])
+        s1 = _deform(s0, F)
+        nl1 = s1.neighborlist(cutoff=cut * 1.04)
+        exp = _exact_measures(_fr_mat(F), [[Fraction(int(i == j)) for j in range(3)] for i in range(3)])
+        how = ['list', 'shared', 'array', 'shared1'][(it + rep) % 4]
+        label, make = _p_supply(rng, pv, n, np, how=how)
+        base = {'op': 'search-psupply', 'caseseed': caseseed, 'it': it, 'rep': rep, 'crystal': name, 'a': a, 'size': list(size),
+                'F': F, 'cutoff': cut, 'p_vectors': label}
+        ctx.stats.case('oracle:psupply:' + label.split('+')[0] + ('+axes' if '+axes' in label else ''), (caseseed, rep), sample=base)
+        entry = rng.choice(['ctor', 'ctor+cutoff', 'set_p_vectors', 'nye_tensor'])
+        with warnings.catch_warnings():
+            warnings.simplefilter('ignore')
+            arg, ax, _ = make()
+            if entry == 'ctor':
+                got = _guard(lambda: am.defect.Strain(s1, neighbors=nl1, p_vectors=arg, axes=ax))
+            elif entry == 'ctor+cutoff':
+                got = _guard(lambda: am.defect.Strain(s1, cutoff=cut * 1.04, p_vectors=arg, axes=ax))
+            elif entry == 'set_p_vectors':
+                def f():
+                    st_ = am.defect.Strain(s1, neighbors=nl1)
+                    st_.set_p_vectors(arg, axes=ax)
+                    return st_
+                got = _guard(f)
+            else:
+                got = _guard(lambda: am.defect.nye_tensor(s1, arg, axes=ax, neighbors=nl1))
+            if isinstance(got, _Raised):
+                ctx.violate('psupply:raises', f'{entry} with p_vectors given as {label} raised {got.text}', dict(base, entry=entry))
+                continue
+            if entry == 'nye_tensor':
+                vals = {'strain': got['strain'], 'invariant1': got['strain_invariant_1'], 'invariant2': got['strain_invariant_2'],
+                        'invariant3': got['strain_invariant_3'], 'angularvelocity': got['angular_velocity'], 'nye': got['Nye_tensor']}
+            else:
+                vals = {}
+                for attr, _ in _SPROPS:
+                    v = _guard(lambda: np.array(getattr(got, attr)))
+                    if isinstance(v, _Raised):
+                        ctx.violate('psupply:raises', f'{entry} with p_vectors given as {label}: .{attr} raised {v.text}',
+                                    dict(base, entry=entry))
+                        vals = None
+                        break
+                    vals[attr] = v
+                if vals is None:
+                    continue
+            for attr, val in vals.items():
+                want = exp[attr]
+                tolv = 1e-8 / a if attr == 'nye' else 2e-9
+                val = np.asarray(val, dtype=float)
+                dv = np.abs(val - want).reshape(n, -1).max(1) if val.shape[:1] == (n,) else np.array([np.inf])
+                if not np.isfinite(val).all() or dv.max() > tolv:
+                    k = int(dv.argmax())
+                    ctx.violate('psupply:' + attr, f'{entry}, reference handed over as {label}: {attr}[{k}] = '
+                                f'{val[k].tolist() if len(dv) == n else val.shape}, from F^-T: {np.asarray(want).tolist()} '
+                                f'({name} {size}, F = {F})', dict(base, entry=entry, atom=k))
+                    break
+
+
 def search(ctx, broken):
     rng = random.Random(ctx.seed * 7919 + 17)
     mult = 2 if broken else 1
     for it in range(ctx.n(8, 45) * mult):
-        _search_slip(ctx, rng.getrandbits(48), it)
+        _guarded_case(ctx, 'search', _search_slip, rng.getrandbits(48), it)
     for it in range(ctx.n(8, 40) * mult):
-        _search_homog(ctx, rng.getrandbits(48), it)
+        _guarded_case(ctx, 'search', _search_homog, rng.getrandbits(48), it)
+    for it in range(ctx.n(8, 40) * mult):
+        _guarded_case(ctx, 'search', _search_p_supply, rng.getrandbits(48), it)
+    for it in range(ctx.n(10, 50) * mult):
+        _guarded_case(ctx, 'search', _strain_sequence, rng.getrandbits(48), it, False)
+    for it in range(ctx.n(10, 50) * mult):
+        _guarded_case(ctx, 'search', _dd_sequence, rng.getrandbits(48), it, False)
+
+
+def _guarded_case(ctx, phase, f, caseseed, it, *more):
+    """an exception escaping a case is an observation (reported with its input), never a crash of the harness."""
+    try:
+        f(ctx, caseseed, it, *more)
+    except cm.InfraError:
+        raise
+    except Exception as e:   # noqa
+        import traceback
+        tb = traceback.format_exc().strip().splitlines()
+        op = {'_strain_sequence': 'sobj', '_dd_sequence': 'dobj', '_search_p_supply': 'search-psupply', '_corr_slip': 'corr-slip',
+              '_corr_strain': 'corr-strain', '_search_slip': 'search-slip', '_search_homog': 'search-homog'}.get(f.__name__, f.__name__)
+        if op in ('sobj', 'dobj'):
+            op = ('corr-' if more and more[0] else 'search-') + op
+        (ctx.disagree if phase == 'corr' else ctx.violate)(
+            'exception:' + op, f'{type(e).__name__}: {e} ({" | ".join(t.strip() for t in tb[-3:])})',
+            {'op': op, 'caseseed': caseseed, 'it': it})
 
 
 def replay(ctx, payload):
@@ -1449,6 +2195,12 @@ def replay(ctx, payload):
         _corr_strain(ctx, r['caseseed'], r['it'])
     elif op == 'corr-match':
         _corr_match(ctx, r['caseseed'], r['index'] + 1)
+    elif op in ('corr-sobj', 'search-sobj'):
+        _strain_sequence(ctx, r['caseseed'], r['it'], op == 'corr-sobj')
+    elif op in ('corr-dobj', 'search-dobj'):
+        _dd_sequence(ctx, r['caseseed'], r['it'], op == 'corr-dobj')
+    elif op == 'search-psupply':
+        _search_p_supply(ctx, r['caseseed'], r['it'])
     else:
         correspond(ctx)
         search(ctx, True)
